@@ -9,6 +9,7 @@
 #include "../engine/pbt.h"
 #include <wchar.h>
 #include <errno.h>
+#include <limits.h>
 #include "safe_lib.h"
 #include "safe_str_lib.h"
 #include "safe_mem_lib.h"
@@ -160,9 +161,9 @@ static void describe_c16(const void *k, char *buf, size_t n) {
     else if (c->kmode == KM_COUNTS) snprintf(ks, sizeof ks, "sorted:%dx1,%dx3,%dx5", c->cnt[0], c->cnt[1], c->cnt[2]);
     else if (c->kmode == KM_HUGE) snprintf(ks, sizeof ks, "nearly-sorted-bytes(cseed=%u)", c->cseed);
     else snprintf(ks, sizeof ks, "random(alphabet=%d,order=%d,cseed=%u)", c->nkeys, c->order, c->cseed);
-    snprintf(buf, n, "%s(nmemb=%d, size=%d, compar=%s, keys=%s, array %s guard page, basebos=%s, ctx-kind=%d, invalid=%s/%d, zero-variant=%d)",
+    snprintf(buf, n, "%s(nmemb=%d, size=%d, compar=%s, keys=%s, array %s guard page, basebos=%s, ctx-kind=%d, invalid=%s/%d, zero-variant=%d, compar-magnitude-mode=%d)",
              rowname(c->row), c->nmemb, c->esize, cmpname(c->cmpk), ks, c->place ? "starts after" : "ends at",
-             c->bos ? "exact" : "unknown", c->ctxk, ivname(c->inval), c->hugek, c->zbase);
+             c->bos ? "exact" : "unknown", c->ctxk, ivname(c->inval), c->hugek, c->zbase, (int)((c->cseed >> 3) % 6));
 }
 
 /* ---- element layout ---------------------------------------------------- */
@@ -186,6 +187,13 @@ static int cmp_keys(unsigned a, unsigned b, int kind) {
     r = (a > b) - (a < b);
     return kind ? -r : r;
 }
+/* a comparator may return ANY int of the right sign ("a - b" comparators do): magnitudes that change when truncated to 8 or
+ * 16 bits, and the extreme values */
+static int cmp_mag(int r, int mag) {
+    static const int M[6] = {1, 65536, 32768, 256, 0x10001, INT_MAX};
+    if (mag == 5 && r < 0) return INT_MIN;
+    return r * M[mag % 6];
+}
 
 /* ---- the comparator handed to the library ----------------------------- */
 static struct {
@@ -193,7 +201,7 @@ static struct {
     size_t n, sz;
     void *ctx;
     const void *key;
-    int kind, search;
+    int kind, search, mag;
     unsigned long calls;
     int bad_range, bad_align, bad_ctx, bad_key;
     int aborted;          /* the comparator left the library call after a pointer offence */
@@ -219,7 +227,7 @@ static int cmpf(const void *x, const void *y, void *ctx) {
         if (g_ar_armed) { G.aborted = 1; siglongjmp(g_ar_jmp, 1); }
         return 0;
     }
-    return cmp_keys(get_key(x, G.sz), get_key(y, G.sz), G.kind);
+    return cmp_mag(cmp_keys(get_key(x, G.sz), get_key(y, G.sz), G.kind), G.mag);
 }
 
 static int h_count;
@@ -393,7 +401,7 @@ static void exec_invalid(const scase_t *c, res_t *r) {
     }
     bos = c->bos ? (c->inval == IV_BASE_NULL ? 0 : bytes) : BOS_UNKNOWN;
     memset(&G, 0, sizeof G);
-    G.base = base; G.n = n; G.sz = sz; G.ctx = ctx_of(0); G.key = keyp; G.kind = c->cmpk == 2 ? 0 : c->cmpk; G.search = c->row == ROW_BSEARCH;
+    G.base = base; G.n = n; G.sz = sz; G.ctx = ctx_of(0); G.key = keyp; G.kind = c->cmpk == 2 ? 0 : c->cmpk; G.mag = (int)((c->cseed >> 3) % 6); G.search = c->row == ROW_BSEARCH;
     h_count = 0;
     set_str_constraint_handler_s(s_handler); set_mem_constraint_handler_s(s_handler);
     res_label(r, "invalid-arguments");
@@ -433,7 +441,7 @@ static void exec_qsort(const scase_t *c, res_t *r) {
     a_base = base;
     if (n == 0) { if (c->zbase & 1) a_base = NULL; if (c->zbase & 2) a_cmp = NULL; }
     memset(&G, 0, sizeof G);
-    G.base = base; G.n = n; G.sz = sz; G.ctx = ctx_of(c->ctxk); G.kind = c->cmpk; G.search = 0;
+    G.base = base; G.n = n; G.sz = sz; G.ctx = ctx_of(c->ctxk); G.kind = c->cmpk; G.mag = (int)((c->cseed >> 3) % 6); G.search = 0;
     h_count = 0;
     set_str_constraint_handler_s(s_handler); set_mem_constraint_handler_s(s_handler);
     AR_GUARDED(ret = _qsort_s_chk(a_base, n, sz, a_cmp, G.ctx, c->bos ? bytes : BOS_UNKNOWN));
@@ -528,7 +536,7 @@ static void exec_bsearch(const scase_t *c, res_t *r) {
         a_base = base; a_key = keyp;
         if (n == 0) { if (c->zbase & 1) a_base = NULL; if (c->zbase & 2) a_cmp = NULL; if (q & 1) a_key = NULL; }
         memset(&G, 0, sizeof G);
-        G.base = base; G.n = n; G.sz = sz; G.ctx = ctx_of(c->ctxk); G.key = keyp; G.kind = c->cmpk; G.search = 1;
+        G.base = base; G.n = n; G.sz = sz; G.ctx = ctx_of(c->ctxk); G.key = keyp; G.kind = c->cmpk; G.mag = (int)((c->cseed >> 3) % 6); G.search = 1;
         h_count = 0;
         AR_GUARDED(res = _bsearch_s_chk(a_key, a_base, n, sz, a_cmp, G.ctx, c->bos ? bytes : BOS_UNKNOWN));
         if (report_fault(r, c, base, "")) return;
@@ -590,7 +598,7 @@ static void exec_huge(const scase_t *c, res_t *r) {
     ar_reset();
     arr_big = 0;
     memset(&G, 0, sizeof G);
-    G.base = base; G.n = n; G.sz = 1; G.ctx = ctx_of(0); G.kind = c->cmpk; G.search = 0;
+    G.base = base; G.n = n; G.sz = 1; G.ctx = ctx_of(0); G.kind = c->cmpk; G.mag = (int)((c->cseed >> 3) % 6); G.search = 0;
     h_count = 0;
     set_str_constraint_handler_s(s_handler); set_mem_constraint_handler_s(s_handler);
     AR_GUARDED(ret = _qsort_s_chk(base, n, 1, cmpf, G.ctx, c->bos ? n : BOS_UNKNOWN));
